@@ -1069,6 +1069,7 @@ def run(ctx):
             per[c["kind"]] = per.get(c["kind"], 0) + 1
         ctx.notes["cases_per_family"] = per
         c17_trace.report(ctx, events, *tres)
+        c17_trace.negative_control(ctx, events, tres[1])  # one corrupted logged value must be rejected by TLC
         for _ in range(nskip):
             ctx.finding("ChoiceUpdateRaises", "recording a CHOICETYPE history: Result.update raised AttributeError (np.int)", None)
         for kind in FAMILIES:
